@@ -7,8 +7,13 @@ DOC = ('TransactionManager::{record_change, create_savepoint, rollback_to_savepo
        's is the MOST RECENT savepoint of that name; RELEASE removes only that savepoint and touches no change; no panic (drain in bounds).')
 
 TEMPLATE = r'''
+#![feature(allocator_api)]
 use vstd::prelude::*;
 verus! {
+
+// std Vec capacity management: no effect on the contents (documented behaviour)
+pub assume_specification<T, A: std::alloc::Allocator> [std::vec::Vec::<T, A>::shrink_to_fit] (v: &mut std::vec::Vec<T, A>)
+    ensures final(v)@ == old(v)@;
 
 // R2: opaque leaf types
 #[verifier::external_body] pub struct Name { s: String }            // String savepoint name, with equality
@@ -200,6 +205,7 @@ TRUSTED = [
     'external_body err_msg: error message text',
     'external_body rposition_name / position_name: Iterator::rposition / position with the closure |sp| sp.name == name (std documented behaviour)',
     'external_body drain_from: Vec::drain(i..).collect() (std documented behaviour; its panic is the precondition i <= len)',
-    'vstd specs: Vec::push, len, truncate, remove, index',
+    'vstd specs: Vec::push, len, truncate, remove, index, clear',
+    'assume_specification std::vec::Vec::<T, A>::shrink_to_fit: capacity management does not change the contents',
     'that every DML executor records its changes, and Database::undo_change, are not covered by this unit (see DESIGN 5/C14)',
 ]
